@@ -69,6 +69,8 @@ def parse_harnesses(name):
                 for k, v in re.findall(r'(\w+)=("[^"]*"|\S+)', mu.group(1)):
                     meta[k] = v.strip('"')
         obl = re.findall(r'"((?:C\d+|CANARY)[^":]*): ([^"]*)"', text)
+        # obligations asserted in shared helper fns are declared on the harness: `// @obl id: text`
+        obl += [(a, b.strip()) for ln in lines for a, b in re.findall(r"//\s*@obl\s+(C\d+[^:]*):\s*(.*)$", ln)]
         covers = re.findall(r'kani::cover!\([^;]*?"([^"]+)"\s*\)\s*;', text, flags=re.S)
         unwind = re.search(r"#\[kani::unwind\((\d+)\)\]", text)
         meta.update(name=hname, module=name, fqn=MODULES[name]["mod_path"] + "::" + hname,
